@@ -164,6 +164,74 @@ func (s *DeleteStmt) Validate(ctx *CheckCtx) error {
 	return s.Where.Expr.Check(ctx)
 }
 
+// checkFieldCycles rejects select fields that are defined in terms of themselves
+// through field names (`upper(u) as u`, or `b + 1 as a, a + 1 as b`). Such a field
+// has no value, and resolving the names would build a cyclic expression.
+func (s *SelectStmt) checkFieldCycles() error {
+	const (
+		unvisited = iota
+		visiting
+		done
+	)
+	state := make([]int, len(s.Fields))
+	fieldIdx := func(name string) int {
+		for i, fname := range s.FieldNames {
+			if fname == name && i < len(s.Fields) {
+				return i
+			}
+		}
+		return -1
+	}
+	var visit func(i int) error
+	visit = func(i int) error {
+		state[i] = visiting
+		var (
+			err    error
+			walkcb WalkCallback
+		)
+		walkcb = func(e Expression) bool {
+			if err != nil {
+				return false
+			}
+			switch x := e.(type) {
+			case *FunctionCallExpr:
+				// the function name is not a field name
+				for _, arg := range x.Args {
+					arg.Walk(walkcb)
+				}
+				return false
+			case *NameExpr:
+				j := fieldIdx(x.Data)
+				if j < 0 {
+					return false
+				}
+				switch state[j] {
+				case visiting:
+					err = NewSyntaxError(x.GetPos(), "Field %s is defined in terms of itself", x.Data)
+				case unvisited:
+					err = visit(j)
+				}
+				return false
+			}
+			return true
+		}
+		if _, isName := s.Fields[i].(*NameExpr); !isName {
+			// (a field that is only a name stays a name: it is never resolved)
+			s.Fields[i].Walk(walkcb)
+		}
+		state[i] = done
+		return err
+	}
+	for i := range s.Fields {
+		if state[i] == unvisited {
+			if err := visit(i); err != nil {
+				return err
+			}
+		}
+	}
+	return nil
+}
+
 func (s *SelectStmt) ValidateFields(ctx *CheckCtx) error {
 	for _, f := range s.Fields {
 		if err := s.validateField(f, ctx); err != nil {
